@@ -127,9 +127,15 @@ structure GState (α : Type) where
   swallowed : Nat := 0                           -- InvalidStateError / exceptions swallowed inside callbacks
   blocked : Bool := false
 
+/-- number of entries that are not pending -/
+def countSome {α : Type} : List (Option α) → Nat
+  | [] => 0
+  | none :: r => countSome r
+  | some _ :: r => countSome r + 1
+
 /-- initial state for a source list: non-futures count as done (`result_append(v); done += 1`) -/
 def GState.init {α : Type} (source : List (Slot α)) : GState α :=
-  { done := (source.filter Option.isSome).length, target := source.length, slots := source }
+  { done := countSome source, target := source.length, slots := source }
 
 /-- pending entry `i` finishes with `d` and its `on_finish` callback runs -/
 def GState.finish {α : Type} (s : GState α) (i : Nat) (d : Except Exc α) : GState α :=
